@@ -188,15 +188,20 @@ impl<R> Arguments<R> {
             pos_args.push(arg);
         }
 
+        // kw-only parameters without defaults come first, then those with defaults (see [PythonArguments])
         let mut kw_only = Vec::with_capacity(kwonlyargs.len());
+        let mut kw_only_with_default = Vec::new();
         let mut kw_defaults = Vec::new();
         for arg in kwonlyargs {
             let (arg, default) = arg.to_arg();
             if let Some(default) = default {
                 kw_defaults.push(*default);
+                kw_only_with_default.push(arg);
+            } else {
+                kw_only.push(arg);
             }
-            kw_only.push(arg);
         }
+        kw_only.append(&mut kw_only_with_default);
 
         PythonArguments {
             range: range.clone(),
@@ -238,15 +243,20 @@ impl<R> Arguments<R> {
             pos_args.push(arg);
         }
 
+        // kw-only parameters without defaults come first, then those with defaults (see [PythonArguments])
         let mut kw_only = Vec::with_capacity(kwonlyargs.len());
+        let mut kw_only_with_default = Vec::new();
         let mut kw_defaults = Vec::new();
         for arg in kwonlyargs {
             let (arg, default) = arg.into_arg();
             if let Some(default) = default {
                 kw_defaults.push(*default);
+                kw_only_with_default.push(arg);
+            } else {
+                kw_only.push(arg);
             }
-            kw_only.push(arg);
         }
+        kw_only.append(&mut kw_only_with_default);
 
         PythonArguments {
             range,
